@@ -569,6 +569,27 @@ func checkProgram(src string, feats map[string]int, r *lib.RNG, thorough bool) {
 		in.Main = sb.String() + "__out := import(\"m\")\n"
 		check(orig, in)
 	}
+	// a program that uses a name it does not declare fails the same way as a module, even when the
+	// importer happens to declare that name: drop one top-level declaration and let the importer make it
+	decls := p.topLevelDecls()
+	for k := 0; k < 2 && len(decls) > 0; k++ {
+		d := decls[r.Intn(len(decls))]
+		src2 := p.src[:d.start] + "undefined" + p.src[d.end:]
+		p2, err := parseProgram(src2)
+		if err != nil {
+			continue
+		}
+		names2 := p2.topLevelNames()
+		orig2 := runScript(src2, nil, readGlobals(names2))
+		if orig2.Class == "timeout" || orig2.Class == "panic" {
+			continue
+		}
+		res.Dist("undeclared-use:" + orig2.Class)
+		in := variantInput{Source: src2, Names: names2, Transformation: "module-isolation", Variant: p2.asModule(names2),
+			Sentinels: []string{d.desc}, Detail: "declaration of " + d.desc + " removed from the program and made by the importer",
+			Main: d.desc + " := \"main's own\"\n__out := import(\"m\")\n"}
+		check(orig2, in)
+	}
 }
 
 // ---- known finding O26 ----
@@ -643,7 +664,7 @@ func main() {
 	for _, ops := range fixedSymOps {
 		checkSymOps(ops)
 	}
-	n := f.Scale(2500, 60000)
+	n := f.Scale(2500, 30000)
 	for i := 0; i < n; i++ {
 		r := rng.Fork()
 		if i%3 == 2 {
@@ -657,7 +678,7 @@ func main() {
 	for _, src := range corpus {
 		checkProgram(src, map[string]int{"a": 1, "b": 1, "c": 1, "d": 1, "e": 1}, rng.Fork(), true)
 	}
-	n = f.Scale(400, 12000)
+	n = f.Scale(350, 1200)
 	for i := 0; i < n; i++ {
 		r := rng.Fork()
 		g := lib.NewGen(r, profile(r))
@@ -669,7 +690,7 @@ func main() {
 			}
 		}
 	}
-	n = f.Scale(650, 18000)
+	n = f.Scale(560, 2000)
 	for i := 0; i < n; i++ {
 		r := rng.Fork()
 		g := newScopeGen(r)
